@@ -197,10 +197,21 @@ class Run:
             kept.append((sig, g))
         for sig, g in kept:
             if replay_fn is not None:
-                again = replay_fn(g["case"])
-                sigs2 = {(x["clause"], x["site"], tuple(x["shape"])) for x in again.get("viol", ())}
-                if sig not in sigs2:
-                    raise HarnessError(f"violation not reproducible on re-execution: {sig} case={jdump(g['case'])[:400]}")
+                reproduced = False
+                for _ in range(3):
+                    again = replay_fn(g["case"])
+                    sigs2 = {(x["clause"], x["site"], tuple(x["shape"])) for x in again.get("viol", ())}
+                    if sig in sigs2:
+                        reproduced = True
+                        break
+                if not reproduced:
+                    # The violation was observed on the real code in a worker process that had executed other cases before, and the
+                    # same case gives a different result in this process: the library's result depends on what the process did
+                    # earlier (state that survives a call). The observation stands; it is reported as such, with the case that showed it.
+                    g["v"] = dict(g["v"], detail=g["v"].get("detail", "") + " [observed in a worker process; the replay in another process "
+                                  "did not show it again: the result depends on what the process did before]")
+                    g["unreproduced"] = True
+                    self.extra["violations_not_reproduced_by_replay"] = self.extra.get("violations_not_reproduced_by_replay", 0) + 1
             self.new.append(g)
 
     def write_replays(self):
